@@ -672,6 +672,108 @@ def held_items(ctx, out, stats):
     return len(hists)
 
 
+# ----------------------------------------------------------------------------- values read THROUGH a space that is deleted
+#
+# A cached cells elsewhere reads through a reference to the space `S` (`T.S = S`): a MODEL-LEVEL reference seen through
+# it (`S.x`, /repo 40cbe69), an own reference (`S.y`), a cells (`S.f()`), the same through a child space (`S.Ch.x`), or
+# depends on such a reader.  `del m.S` / `del S.Ch`: right after it no reader that read through the deleted space holds
+# a value, and at the end live = edits-only.
+
+THROUGH_READERS = {      # name -> (space it reads through, source)
+    "c_glob": ("S", "def c_glob(): return S.x"),
+    "c_own": ("S", "def c_own(): return S.y"),
+    "c_cells": ("S", "def c_cells(): return S.f()"),
+    "c_child": ("S.Ch", "def c_child(): return S.Ch.x"),
+    "c_childown": ("S.Ch", "def c_childown(): return S.Ch.v"),
+    "c_dep": ("S", "def c_dep(): return c_glob() + 1"),
+    "c_hidden": ("S", "def c_hidden(): return S.z"),      # S has its own z hiding the model-level z
+}
+
+
+def run_through(h, evaluate_between):
+    from ..impl import err_kind
+    close_all()
+    obs, problems = [], []
+    try:
+        with quiet():
+            m = mx.new_model("H")
+            m.x, m.z = 1, 2
+            S = m.new_space("S")
+            S.y, S.z = 7, 20
+            S.new_cells("f", formula="def f(): return y + 1")
+            Ch = S.new_space("Ch")
+            Ch.v = 5
+            T = m.new_space("T")
+            T.S = S
+            readers = list(h["readers"])
+            for n in readers:
+                T.new_cells(n, formula=THROUGH_READERS[n][1])
+
+            def query():
+                one = {}
+                for n in readers:
+                    try:
+                        one[n] = T.cells[n]()
+                    except BaseException as e:      # noqa: BLE001
+                        one[n] = "err " + err_kind(mx.get_error() if type(e).__name__ == "FormulaError" else e)
+                return one
+            for i, st in enumerate(h["steps"]):
+                k = st[0]
+                if k == "query":
+                    if evaluate_between or i == len(h["steps"]) - 1:
+                        obs.append(query())
+                    continue
+                if k == "mref":
+                    m.x = st[1]
+                elif k == "del_space":
+                    if st[1] == "S":
+                        del m.S
+                    else:
+                        del S.Ch
+                    if evaluate_between:
+                        for n in readers:
+                            thr = THROUGH_READERS[n][0]
+                            if (thr == st[1] or thr.startswith(st[1] + ".")) and len(T.cells[n]._impl.data):
+                                problems.append((i, n))
+    finally:
+        close_all()
+    return obs, problems
+
+
+def check_through(h, out, stats):
+    stats["through_deleted_space_histories"] += 1
+    live, problems = run_through(h, True)
+    only, _ = run_through(h, False)
+    n_fail = 0
+    for i, n in problems[:2]:
+        out.fail("T.%s (%s) still holds the value it computed through the space %s, right after that space was deleted" % (
+            n, THROUGH_READERS[n][1].split(": ", 1)[1], h["steps"][i][1]), dict(h, steps=h["steps"][:i + 1] + [["query"]]))
+        n_fail += 1
+    a, b = live[-1], only[-1]
+    for n in sorted(a):
+        if a[n] != b[n] and n_fail < 2:
+            out.fail("T.%s (%s) returns %r after evaluations between the edits and %r in a model to which only the edits were "
+                     "applied (the space it read through was deleted)" % (n, THROUGH_READERS[n][1].split(": ", 1)[1], a[n], b[n]), h)
+            n_fail += 1
+    return not n_fail
+
+
+def through_deleted_space(ctx, out, stats):
+    allr = sorted(THROUGH_READERS)
+    hists = []
+    for victim in ("S", "S.Ch"):
+        hists.append({"scenario": "through-deleted-space", "readers": allr, "steps": [["query"], ["del_space", victim], ["query"]]})
+        hists.append({"scenario": "through-deleted-space", "readers": allr,
+                      "steps": [["query"], ["mref", 4], ["query"], ["del_space", victim], ["query"]]})
+    for n in allr:
+        rs = sorted({n, "c_glob"} if n == "c_dep" else {n})
+        hists.append({"scenario": "through-deleted-space", "readers": rs, "steps": [["query"], ["del_space", "S"], ["query"]]})
+    for h in hists:
+        if not check_through(h, out, stats):
+            break
+    return len(hists)
+
+
 def session_family():
     """[(label, ops)]: the session's handle set to the space that is then deleted, to a child, to a grandchild of it
     (by mx.cur_space(obj), by <parent>.cur_space(name), or left where new_space put it), the deletion at the top / in
@@ -718,6 +820,12 @@ def run(ctx, out):
         run_dynamic(ctx, out, stats)
     n_held = held_items(ctx, out, stats)
     out.coverage["evaluations"] += n_held
+    n_thr = through_deleted_space(ctx, out, stats)
+    out.coverage["evaluations"] += n_thr
+    out.coverage["rule"] += ("; plus %d histories in which cached cells elsewhere read THROUGH a space (a model-level "
+                             "reference seen through it, an own reference, a cells, the same through a child space, a "
+                             "dependent of such a reader) and the space / the child space is deleted: no such reader holds "
+                             "a value right after the deletion, and live = edits-only at the end" % n_thr)
     out.coverage["rule"] += ("; plus %d histories over ItemSpaces HELD by references (T.r = S[i], T.rc = S[i].Ch) with cached "
                              "readers of their arguments, formula references, base references, cells, child space, and "
                              "of the ItemSpace passed as an argument; every kind of discard (base cells created / redefined "
@@ -737,6 +845,9 @@ def replay(ctx, payload, out):
     h = payload.get("history") or {}
     if h.get("scenario") == "held-items":
         check_held(h, out, collections.Counter())
+        return
+    if h.get("scenario") == "through-deleted-space":
+        check_through(h, out, collections.Counter())
         return
     ops = h.get("ops") or []
     if any(o[0] in ("item", "evalstatic") or (o[0] == "eval" and isinstance(o[2], list)) for o in ops):
